@@ -279,9 +279,17 @@ def run(ck):
                 minidom.parseString(text.encode("utf-8"))
             except Exception:  # noqa: BLE001 - the change broke the XML itself (e.g. inside an entity): not a keyring any more
                 continue
-            p = tmp / "m.knxkeys"
+            # the changed content replaces the genuine file at the same path (which was loaded successfully just before)
+            p = tmp / "k.knxkeys" if name.startswith("generated") else tmp / "r.knxkeys"
+            if not name.startswith("generated"):
+                p.write_text(xml, encoding="utf-8")
+                load(p, password)
             p.write_text(text, encoding="utf-8")
             out, kr = load(p, password)
+            p.write_text(xml, encoding="utf-8")
+            back, _ = load(p, password)                 # ... and the genuine content loads again afterwards
+            if back != "ok":
+                out = "raised:GenuineRefusedAfterwards"
             same = 0
             if out == "ok":
                 try:
